@@ -229,7 +229,8 @@ def contained(seq, container, id="r"):
         return CircularRecord(MutableSeq(seq), id=id, name=id)
     if container in ("annotated", "annotated-light"):
         return CircularRecord(Seq(seq), id=id, name=id, features=decorations(n, light=container.endswith("light")), letter_annotations={"idx": list(range(n)), "txt": "x" * n},
-                              annotations={"topology": "circular", "molecule_type": "DNA", "keywords": ["k"]}, dbxrefs=["db:1"])
+                              annotations={"topology": "circular", "molecule_type": "DNA", "keywords": ["k"], "comment": ["a comment kept as a list", "of two lines"],
+                                           "structured_comment": {"Assembly-Data": {"Method": "x"}}, "date": "01-JAN-2020"}, dbxrefs=["db:1"])
     if container == "seq":
         return crec(seq, id)
     raise ValueError(container)
@@ -297,6 +298,9 @@ def produced(seq, route, id="r"):
     raise ValueError(route)
 
 
+MOLTYPES = ["DNA", "ds-DNA", "other DNA", "genomic DNA", "unassigned DNA"]
+
+
 def presentations(seq, id="r"):
     """The same circular plasmid handed over in every legal way: -> [(name, record)].  The first one is the canonical
     CircularRecord; the others differ in container class, sequence class, annotations and decorations only."""
@@ -315,6 +319,11 @@ def presentations(seq, id="r"):
     out.append(("circular-record-annotated", r))
     out.append(("circular-record-from-seqrecord", CircularRecord(SeqRecord(Seq(seq), id=id, name=id, annotations={"topology": "Circular"}))))
     out.append(("seqrecord-topology-Circular", SeqRecord(Seq(seq), id=id, name=id, annotations={"topology": "Circular"})))
+    # every way flat files spell "this is DNA" (GenBank: DNA, ds-DNA; EMBL / INSDC: other DNA, genomic DNA, unassigned DNA)
+    for j, mt in enumerate(MOLTYPES):
+        ann = {"topology": "circular", "molecule_type": mt, "data_file_division": "SYN", "date": "01-JAN-2020", "accessions": [id],
+               "sequence_version": 1, "source": "synthetic construct", "taxonomy": [], "comment": "one string\nof two lines" if j % 2 else ["a list", "of lines"]}
+        out.append(("circular-record-molecule-type-" + mt.replace(" ", "-"), CircularRecord(Seq(seq), id=id, name=id, annotations=ann)))
     out.append(("seqrecord-topology-CIRCULAR-annotated", SeqRecord(Seq(seq), id=id, name=id, features=decorations(n), letter_annotations={"idx": list(range(n))},
                                                                  annotations={"topology": "CIRCULAR", "molecule_type": "DNA"})))
     return out
